@@ -27,6 +27,14 @@ history (no bound anywhere):
                      now fixed); the former `alt_…_partial` / `alt_assign_own_counterexample` pair is
                      replaced by the full-strength `alt_step_safe`, `alt_reach_inv`, `alt_history_safe`
                      (`xvalid` excludes no operation any more).
+* element kinds: every theorem quantifies over `k : Kind` = the declared members (copy+move, move-only, copy-only) AND
+                     one bit per special member (user-provided / defaulted-trivial).  The owners' `requires` clauses test
+                     these bits (`Kind.trivCC … trivMA`) and the model takes the path they select — variant's own special
+                     member or the defaulted byte-wise one (`varAssignBytes`, the defaulted move constructor of
+                     inplace_vector that leaves the source's size alone); the theorems hold for all 3 × 32 combinations.
+                     `alt_bytes_assign_unsafe_without_trivial_ctor` shows the byte-wise path is an error for the kind
+                     with defaulted assignment and user-provided constructors, which is why the clause has its
+                     `is_trivially_copy_constructible_v` half; `alt_traits_consistent` ties the bits to C07's `Cfg`.
 Proofs: TetlProofs/C03/Prim.lean, Rotate.lean, Vec.lean, VarFn.lean, Sets.lean.
 -/
 import TetlProofs.C03.Vec
@@ -58,11 +66,12 @@ example : (0 : Nat) ≤ 1 ∧ 1 ≤ 3 := by decide   -- rotate(begin, begin + 1,
 
 /-! ## the illegal transition behind the `remove_if` self-move -/
 
-theorem self_move_of_value_is_error (k : Kind) (hk : k ≠ .co) (m : Mem) (i ty v : Nat)
+theorem self_move_of_value_is_error (k : Kind) (hk : k.mem ≠ .co) (hma : k.tr.ma = true) (m : Mem) (i ty v : Nat)
     (h : m.slots[i]? = some (.live ty (some v))) : moveA k m i ty (.slot i) = .error (.selfMove i) :=
-  moveA_self_value_error k hk m i ty v h
+  moveA_self_value_error k hk hma m i ty v h
 
-example : (⟨[.live 0 (some 5)], {}⟩ : Mem).slots[0]? = some (.live 0 (some 5)) := rfl
+example : Kind.cm.mem ≠ .co ∧ Kind.cm.tr.ma = true ∧
+    (⟨[.live 0 (some 5)], {}⟩ : Mem).slots[0]? = some (.live 0 (some 5)) := ⟨by decide, rfl, rfl⟩
 
 /-! ## static_vector, inplace_vector, stack -/
 
@@ -149,19 +158,28 @@ example : histValid (svalid .fs 3) (sstep .fs .cm 3) (St.init 3 0 0)
 
 /-! ## variant, optional, expected -/
 
+/-- for EVERY combination of declared members and per-member trait bits (user-provided / defaulted) of the alternative
+    type — hence whichever of the two paths the `requires` clauses of variant.hpp select (variant's own special member, or
+    the defaulted byte-wise one `varAssignBytes`) — every operation inside its precondition runs without a lifetime
+    error (in particular without `notDestroyed` / `notConstructed`) and keeps the owner invariant -/
 theorem alt_step_safe (k : Kind) (trk : Nat → Bool) (nalt : Nat) (s : St) (t : Bool) (op : XOp)
-    (hi : VarInv trk nalt s) (hv : xvalid trk nalt s t op = true) :
+    (hi : VarInv trk nalt s) (hv : xvalid k trk nalt s t op = true) :
     ∃ s', xstep k trk s t op = .ok s' ∧ VarInv trk nalt s' :=
   xstep_inv k trk nalt s t op hi hv
 
 example : VarInv (fun _ => true) 3 (xinit fun _ => true) ∧
-    xvalid (fun _ => true) 3 (xinit fun _ => true) true (.emplaceMove 2 5) = true :=
+    xvalid .cm (fun _ => true) 3 (xinit fun _ => true) true (.emplaceMove 2 5) = true :=
   ⟨xinit_inv _ 3 (by decide), by decide⟩
 
 example : VarInv (fun _ => true) 3 (xinit fun _ => true) ∧
-    xvalid (fun _ => true) 3 (xinit fun _ => true) false (.assignCopy 0 5) = true ∧
-    xvalid (fun _ => true) 3 (xinit fun _ => true) false .assignOwn = true :=
+    xvalid .cm (fun _ => true) 3 (xinit fun _ => true) false (.assignCopy 0 5) = true ∧
+    xvalid .cm (fun _ => true) 3 (xinit fun _ => true) false .assignOwn = true :=
   ⟨xinit_inv _ 3 (by decide), by decide, by decide⟩
+
+-- the mixed kinds: every operation, self-swap included, is inside `xvalid`
+example : xvalid .da (fun _ => true) 3 (xinit fun _ => true) false .swapSelf = true ∧
+    xvalid .dm (fun _ => true) 3 (xinit fun _ => true) false .swapSelf = true ∧
+    xvalid .dc (fun _ => true) 3 (xinit fun _ => true) false .cassign = true := by decide
 
 theorem alt_reach_inv {k : Kind} {trk : Nat → Bool} {nalt : Nat} (hn : 0 < nalt) {s : St}
     (h : XReach k trk nalt s) : VarInv trk nalt s :=
@@ -172,7 +190,7 @@ theorem alt_finish_balanced (trk : Nat → Bool) (nalt : Nat) (s : St) (hi : Var
   xfinish_ok trk nalt s hi
 
 theorem alt_history_safe (k : Kind) (trk : Nat → Bool) (nalt : Nat) (ops : List (Bool × XOp)) (s : St)
-    (hi : VarInv trk nalt s) (hv : histValid (xvalid trk nalt) (xstep k trk) s ops = true) :
+    (hi : VarInv trk nalt s) (hv : histValid (xvalid k trk nalt) (xstep k trk) s ops = true) :
     ∃ s' s'', runOps (xstep k trk) s ops = .ok s' ∧ VarInv trk nalt s' ∧
       xfinish trk s' = .ok s'' ∧ AllDead s''.mem ∧ s''.mem.cnt.constructed = s''.mem.cnt.d := by
   induction ops generalizing s with
@@ -188,15 +206,53 @@ theorem alt_history_safe (k : Kind) (trk : Nat → Bool) (nalt : Nat) (ops : Lis
     obtain ⟨s', s'', r1, r2, r3, r4, r5⟩ := ih s1 hi1 hv2
     exact ⟨s', s'', by simp only [runOps, h1]; exact r1, r2, r3, r4, r5⟩
 
-example : histValid (xvalid (fun _ => true) 3) (xstep .mo fun _ => true) (xinit fun _ => true)
+example : histValid (xvalid .mo (fun _ => true) 3) (xstep .mo fun _ => true) (xinit fun _ => true)
     [(false, .emplace 1 4), (true, .massign), (true, .swapSelf), (false, .emplaceMove 2 6), (false, .swap)] = true := by
   decide
 
 -- converting assignments onto the held alternative, onto another one, and from the own alternative
-example : histValid (xvalid (fun _ => true) 3) (xstep .cm fun _ => true) (xinit fun _ => true)
+example : histValid (xvalid .cm (fun _ => true) 3) (xstep .cm fun _ => true) (xinit fun _ => true)
     [(false, .assignCopy 0 4), (false, .assignMove 2 5), (false, .assignMove 2 6), (false, .assignOwn), (true, .mctor),
      (false, .assignOwn), (false, .assignCopy 2 7)] = true := by
   decide
+
+-- mixed kinds (defaulted assignment / defaulted move operations): cross-alternative copy and move assignment, swap, self-swap
+example : histValid (xvalid .da (fun _ => true) 3) (xstep .da fun _ => true) (xinit fun _ => true)
+    [(false, .emplace 1 4), (true, .cassign), (false, .emplaceMove 2 6), (true, .massign), (true, .swapSelf), (false, .swap)] = true := by
+  decide
+
+example : histValid (xvalid .dm (fun _ => true) 3) (xstep .dm fun _ => true) (xinit fun _ => true)
+    [(false, .emplace 1 4), (true, .cassign), (false, .emplaceMove 2 6), (true, .massign), (true, .swapSelf), (false, .swap)] = true := by
+  decide
+
+-- an element type whose every special member is trivial: all four byte-wise paths are taken
+example : histValid (xvalid ⟨.cm, ⟨false, false, false, false, false⟩⟩ (fun _ => true) 3)
+    (xstep ⟨.cm, ⟨false, false, false, false, false⟩⟩ fun _ => true) (xinit fun _ => true)
+    [(false, .emplace 1 4), (true, .cassign), (false, .emplaceMove 2 6), (true, .massign), (true, .swapSelf), (false, .swap)] = true := by
+  decide
+
+/-- what the `is_trivially_copy_constructible_v` half of `detail::variant_trivially_copy_assignable` is for: for an
+    alternative type with a defaulted copy assignment next to a user-provided copy constructor and destructor (`Kind.da`)
+    the `requires` clause selects variant's own copy assignment (`trivCA = false`); the defaulted byte-wise assignment
+    would overwrite the held alternative without destroying it … -/
+theorem alt_bytes_assign_unsafe_without_trivial_ctor :
+    Kind.da.trivCA = false ∧ (!Kind.da.tr.ca) = true ∧
+    varAssignBytes .da (fun _ => true) false ⟨[.live 0 (some 1), .live 1 (some 2), .dead, .dead, .dead, .dead], {}⟩ 0 0 1 1
+      = .error (.notDestroyed 0) ∧
+    -- … and, from a variant holding a trivial alternative, let the new alternative appear without a constructor call
+    varAssignBytes .da (fun j => j != 0) false ⟨[.dead, .live 1 (some 2), .dead, .dead, .dead, .dead], {}⟩ 0 0 1 1
+      = .error (.notConstructed 0) :=
+  ⟨rfl, rfl, rfl, rfl⟩
+
+/-- the path tests of this model are those of the value-level variant model of C07 (`Tetl.C07.assign`,
+    `Tetl.C07.construct` branch on the bits of `cfgOf n k`), and the bits are consistent: trivially copy (move)
+    assignable in variant's sense implies trivially copy (move) constructible and trivially destructible -/
+theorem alt_traits_consistent (n : Nat) (k : Kind) (mv : Bool) :
+    ((if mv then (cfgOf n k).trivMA else (cfgOf n k).trivCA) = (if mv then k.trivMA else k.trivCA)) ∧
+    ((cfgOf n k).trivCA = true → (cfgOf n k).trivCC = true ∧ k.trivD = true) ∧
+    ((cfgOf n k).trivMA = true → (cfgOf n k).trivMC = true ∧ k.trivD = true) := by
+  rcases k with ⟨mem, ⟨cc, mc, ca, ma, dt⟩⟩
+  cases mem <;> cases cc <;> cases mc <;> cases ca <;> cases ma <;> cases dt <;> cases mv <;> simp [cfgOf, Kind.trivCC, Kind.trivMC, Kind.trivCA, Kind.trivMA, Kind.trivD]
 
 theorem alt_copy_assign_self_id (k : Kind) (trk : Nat → Bool) (nalt : Nat) (s : St) (t : Bool)
     (hi : VarInv trk nalt s) :
@@ -210,9 +266,13 @@ theorem alt_assign_own_id (k : Kind) (trk : Nat → Bool) (nalt : Nat) (s : St) 
   xassignOwn_id k trk nalt s t hi
 
 theorem alt_swap_self_id (k : Kind) (trk : Nat → Bool) (nalt : Nat) (s : St) (t : Bool)
-    (hi : VarInv trk nalt s) :
+    (hi : VarInv trk nalt s) (hv : xvalid k trk nalt s t .swapSelf = true) :
     ∃ s', xstep k trk s t .swapSelf = .ok s' ∧ s'.mem.slots = s.mem.slots ∧ s'.a = s.a ∧ s'.b = s.b :=
-  xswapSelf_id k trk nalt s t hi
+  xswapSelf_id k trk nalt s t hi hv
+
+example : VarInv (fun _ => true) 3 (xinit fun _ => true) ∧
+    xvalid .dm (fun _ => true) 3 (xinit fun _ => true) false .swapSelf = true :=
+  ⟨xinit_inv _ 3 (by decide), by decide⟩
 
 /-! ## inplace_function -/
 
